@@ -150,3 +150,18 @@ package cesium
 //@ spec func vwOpened(vw map[ChannelKey]*virtual.Writer) bool =
 //@   forall k ChannelKey :: __in(vw, k) ==> vw[k] != nil
 //@ import virtual "github.com/synnaxlabs/cesium/internal/virtual"
+
+//@ # ---------------------------------------------------------------- time-range deletes (C04: "deleting from an index
+//@ # channel is refused while a channel it indexes still has data in that range")
+//@ # At the call that deletes from an index channel, every other unary channel indexed by it has been
+//@ # asked and has no data in the range. Deleting from the unary DBs themselves is opaque here
+//@ # (unary.DB.Delete -> domain.DB.Delete is under contract in its own package).
+//@ func (db *DB) DeleteTimeRange(ctx context.Context, chs []ChannelKey, tr telem.TimeRange) (err error)
+//@   assert_before "err := idxDB.Delete(ctx, tr)" forall k ChannelKey :: __in(db.mu.dbs.unary, k) && k != ch && unary.SpecIndexOf(db.mu.dbs.unary[k]) == ch ==> !unary.SpecHasData(db.mu.dbs.unary[k], tr)
+//@   modifies nothing
+//@   loop 0 modifies nothing
+//@   loop 1 modifies nothing
+//@   loop 2 modifies nothing
+//@   loop 3 modifies nothing
+//@   loop 3 invariant forall k ChannelKey :: __seen(k) && k != ch && unary.SpecIndexOf(db.mu.dbs.unary[k]) == ch ==> !unary.SpecHasData(db.mu.dbs.unary[k], tr)
+//@ import unary "github.com/synnaxlabs/cesium/internal/unary"
